@@ -352,6 +352,9 @@ def r7_canonical_order_compare(ctx, F):
 def run(ctx):
     F = ctx.facts("core")
     r7_canonical_order_compare(ctx, F)
+    # `x == <int literal>` falls back to the general equality for operands of another type (shared with C02.R6)
+    from rules.C02 import r6_specialised_equality
+    r6_specialised_equality(ctx, F, rule="C09.R8")
     r6_exact_mixed_comparison(ctx, F)
     r4_slices(ctx, F)
     r5_sorted(ctx, F)
